@@ -196,18 +196,29 @@ def threshold(db, rep):
     ok = False
     shown = []
     undecided = True
+    # the accept condition as a guard (however it is written: `a < b` kept, `a >= b` rejected, operands swapped ...):
+    # strictly  work < threshold  with the hash on the small side and n_bits on the large side
+    def side_is_hash(lv):
+        return any('finalize' in x or 'Digest' in x or 'hash' in x.split('::')[-1].lower() for x in lv if x.startswith('call:')) and \
+            not any(x.startswith('op:pow') for x in lv)
+
+    def side_is_threshold(lv):
+        return 'a2' in lv and any(x.startswith('op:pow') for x in lv) and not any('Digest' in x or 'finalize' in x for x in lv)
+    strict = [g for g in gs if side_is_hash(g.lhs) and side_is_threshold(g.rhs)]
+    loose = [g for g in dataflow.own_guards(db, fn, fl) if g.rel == 'LE' and side_is_hash(g.lhs) and side_is_threshold(g.rhs)]
     for bi, t in fn.calls():
         if t['f'].get('name') in ('lt', 'le', 'gt', 'ge') and t['f'].get('trait', '').startswith('core::cmp'):
             a, b2 = T.operand(t['args'][0]), T.operand(t['args'][1])
             sa, sb = exprtree.show(a), exprtree.show(b2)
+            if 'from_bytes_be' not in sa and 'from_bytes_be' in sb:
+                a, b2, sa, sb = b2, a, sb, sa
             shown.append((t['f'].get('name'), sa[:120], sb[:60]))
-            # from_bytes_be_slice(<hash2>[Range{0, k}])  <  pow(2, sub(N, a2))
-            import re
+            # from_bytes_be_slice(<hash2>[Range{0, k}])  vs  pow(2, sub(N, a2))
             m = re.search(r'Range\{start: 0, end: (\d+)\}', sa)
             n = re.search(r'pow(?:_felt)?\(2, sub\((\d+), a2\)', sb)
             if m and n and 'from_bytes_be' in sa and ('finalize' in sa or _has_helper_app(db, a)):
                 undecided = False
-                ok = t['f'].get('name') == 'lt' and int(m.group(1)) * 8 == int(n.group(1)) and bool(gs)
+                ok = int(m.group(1)) * 8 == int(n.group(1)) and bool(strict) and not loose
     # no modular reduction: a digest enters the field only through a constant sub-range of at most 31 bytes
     for bi, t in fn.calls():
         if t['f'].get('name') in ('from_bytes_be_slice', 'from_bytes_be', 'from_bytes_le', 'from_bytes_le_slice'):
